@@ -34,8 +34,11 @@ func c02Q4Rule(c *rt.Ctx) {
 
 // c02BaseOpaque: leaf helpers whose calls are matched as atoms, never inlined.
 func c02BaseOpaque(fn *ssa.Function) bool {
+	if c02HelperKind(fn) != "" {
+		return true
+	}
 	switch c02Strip(an.FuncName(fn)) {
-	case c02P + ".isZeroVal", c02P + ".zeroVal", c02P + ".uniqSource", c02P + ".filterMsgs", c02P + ".flatten":
+	case c02P + ".uniqSource", c02P + ".flatten":
 		return true
 	}
 	return false
@@ -71,7 +74,7 @@ func c02Accepts(s *c02Sim, idx int, run func()) (*ssa.Return, bool) {
 func c02ZeroAtom(s *c02Sim, v ssa.Value, f *c02Frame, st *c02State, isV func(ssa.Value, *c02Frame, *c02State) bool) (bool, bool) {
 	isZero := func(x ssa.Value) bool {
 		r := s.rootOf(x, f, st)
-		if c02Static(r.V, "zeroVal") != nil {
+		if c02CallOfKind(r.V, "zero") != nil {
 			return true
 		}
 		if k, ok := r.V.(*ssa.Const); ok {
@@ -81,7 +84,7 @@ func c02ZeroAtom(s *c02Sim, v ssa.Value, f *c02Frame, st *c02State, isV func(ssa
 	}
 	switch x := v.(type) {
 	case *ssa.Call:
-		if c02Static(x, "isZeroVal") != nil && len(x.Call.Args) == 1 && isV(x.Call.Args[0], f, st) {
+		if c02CallOfKind(x, "iszero") != nil && len(x.Call.Args) == 1 && isV(x.Call.Args[0], f, st) {
 			return true, true
 		}
 	case *ssa.BinOp:
@@ -105,7 +108,7 @@ func c02ElemLoops(s *c02Sim, isColl func(rc ssa.Value, f *c02Frame) bool) []c02F
 	var out []c02FrameLoop
 	for _, f := range s.allFrames() {
 		for _, l := range an.Loops(f.fn) {
-			if rc := l.RangeColl(); rc != nil && isColl(rc, f) {
+			if rc := c02RangeColl(l); rc != nil && isColl(rc, f) {
 				out = append(out, c02FrameLoop{f, l})
 			}
 		}
@@ -145,6 +148,15 @@ func c02ForallRejects(s *c02Sim, fl c02FrameLoop, resIdx int, atom func(v ssa.Va
 	if hit != nil {
 		return false, "an iteration that sees such an element can still end in an accepting return"
 	}
+	// ... and every element is looked at: while elements remain the loop is not left towards acceptance
+	accepting := func(r *ssa.Return, st *c02State) bool {
+		return resIdx < len(r.Results) && s.verdict(r, resIdx, st) != c02False
+	}
+	if ok, exh := c02ScanLeftOnlyToReject(s, fl.f, fl.l, accepting); exh {
+		return false, c02Undecided
+	} else if !ok {
+		return false, "the loop can be left towards an accepting return before every element was looked at"
+	}
 	return true, ""
 }
 
@@ -162,7 +174,7 @@ func c02ElemAccessorUses(s *c02Sim, fl c02FrameLoop, method string) (calls, othe
 				continue
 			}
 			a := s.rootOf(call.Call.Value, g, nil)
-			if a.F != fl.f || !fl.l.ElemOf(a.V) {
+			if a.F != fl.f || !c02ElemOf(fl.l, a.V) {
 				continue
 			}
 			calls++
@@ -310,7 +322,7 @@ func c02Q4RoundChange(c *rt.Ctx) {
 						return false, false
 					}
 				}
-				if recv.F != fl.f || !fl.l.ElemOf(recv.V) {
+				if recv.F != fl.f || !c02ElemOf(fl.l, recv.V) {
 					return false, false
 				}
 				matched = true
@@ -388,7 +400,7 @@ func (s *c02Sim) filterSpec(v ssa.Value, f *c02Frame, depth int) (c02FilterSpecV
 		}
 		return nil, false
 	}
-	if c02Strip(an.FuncName(g)) == c02P+".filterMsgs" {
+	if c02HelperKind(g) == "filter" {
 		a := call.Call.Args
 		if len(a) != 6 {
 			return none, false
@@ -436,6 +448,7 @@ func c02Q4Decided(c *rt.Ctx) {
 	type qc struct {
 		bin         *ssa.BinOp
 		f           *c02Frame
+		argF        *c02Frame // frame the counted operand lives in
 		arg         ssa.Value // counted list (nil: a counter)
 		count       ssa.Value
 		trueReached bool
@@ -447,20 +460,18 @@ func c02Q4Decided(c *rt.Ctx) {
 			if !ok || !c02IsCmp(bin.Op) {
 				continue
 			}
-			count, op := bin.X, bin.Op
-			k, isT := c02Threshold(bin.Y)
+			count, k, op, isT := c02QuorumCmp(bin)
 			if !isT {
-				if k, isT = c02Threshold(bin.X); !isT {
-					continue
-				}
-				count, op = bin.Y, c02Flip(op)
+				continue
 			}
 			if k != "quorum" || (op != token.GEQ && op != token.LSS) {
 				continue
 			}
-			count = an.Resolve(count)
+			// the count may have been handed to a helper that only compares (`hasQuorum(d, len(commits))`)
+			cr := s.rootOf(an.Resolve(count), f, nil)
+			count = an.Resolve(cr.V)
 			arg := c02LenArg(count)
-			cmps = append(cmps, qc{bin, f, arg, count, op == token.GEQ})
+			cmps = append(cmps, qc{bin, f, cr.F, arg, count, op == token.GEQ})
 		}
 	}
 	var gate *qc
@@ -491,10 +502,10 @@ func c02Q4Decided(c *rt.Ctx) {
 	var spec c02FilterSpecVF
 	ok := false
 	if gate.arg != nil {
-		spec, ok = s.filterSpec(gate.arg, gate.f, 0)
+		spec, ok = s.filterSpec(gate.arg, gate.argF, 0)
 	}
 	if !ok {
-		c02Q4DecidedManual(c, s, fn, msg, commitT, gate.f, gate.arg, gate.count, pos)
+		c02Q4DecidedManual(c, s, fn, msg, commitT, gate.argF, gate.arg, gate.count, pos)
 		return
 	}
 	c.Good("isJustifiedDecided verdict", pos, "no accepting return when len(filterMsgs(...)) < Quorum()")
@@ -582,7 +593,7 @@ func c02Q4DecidedManual(c *rt.Ctx, s *c02Sim, fn *ssa.Function, msg *ssa.Paramet
 			return
 		}
 		fl := c02FrameLoop{s.root, l}
-		if rc := l.RangeColl(); rc == nil || !s.msgCallOn(rc, s.root, nil, "Justification", msg) {
+		if rc := c02RangeColl(l); rc == nil || !s.msgCallOn(rc, s.root, nil, "Justification", msg) {
 			own = false
 		}
 		if ok, _ := c02LoopFull(l); !ok {
@@ -604,7 +615,7 @@ func c02Q4DecidedManual(c *rt.Ctx, s *c02Sim, fn *ssa.Function, msg *ssa.Paramet
 						return false, false
 					}
 				}
-				if recv.F != fl.f || !fl.l.ElemOf(recv.V) {
+				if recv.F != fl.f || !c02ElemOf(fl.l, recv.V) {
 					return false, false
 				}
 				matched = true
@@ -811,6 +822,7 @@ func c02Q4Qrc(c *rt.Ctx) {
 	s.opaque = func(g *ssa.Function) bool {
 		return c02BaseOpaque(g) || c02Strip(an.FuncName(g)) == c02P+".getSingleJustifiedPrPv"
 	}
+	s.inlineAll = true // helpers that report through an enum or a value instead of a boolean are followed too
 	s.discover()
 	if s.exhausted {
 		c.Bail("containsJustifiedQrc: " + c02Undecided)
@@ -870,7 +882,7 @@ func c02Q4Qrc(c *rt.Ctx) {
 						return false, false
 					}
 				}
-				if recv.F != fl.f || !fl.l.ElemOf(recv.V) {
+				if recv.F != fl.f || !c02ElemOf(fl.l, recv.V) {
 					return false, false
 				}
 				switch op {
